@@ -13,6 +13,8 @@ pub open spec fn be32_seq(v: int) -> Seq<u8> {
     seq![(v / 16777216) as u8, ((v / 65536) % 256) as u8, ((v / 256) % 256) as u8, (v % 256) as u8]
 }
 
+pub open spec fn be64_seq(v: int) -> Seq<u8> { be32_seq(v / 4294967296) + be32_seq(v % 4294967296) }
+
 // ---- byteorder::BigEndian (third-party; specified: big-endian, panics iff the slice is short)
 pub struct BigEndian;
 impl BigEndian {
@@ -37,6 +39,7 @@ impl BigEndian {
         ensures final(buf)@.len() == old(buf)@.len(),
             be16(final(buf)@) == v as int,
             final(buf)@[0] == (v / 256) as u8, final(buf)@[1] == (v % 256) as u8,
+            final(buf)@.subrange(0, 2) == be16_seq(v as int),
             forall|i: int| 2 <= i < old(buf)@.len() ==> final(buf)@[i] == old(buf)@[i],
     { unimplemented!() }
     #[verifier::external_body]
@@ -52,6 +55,7 @@ impl BigEndian {
         requires old(buf)@.len() >= 8,
         ensures final(buf)@.len() == old(buf)@.len(),
             be64(final(buf)@) == v as int,
+            final(buf)@.subrange(0, 8) == be64_seq(v as int),
             forall|i: int| 8 <= i < old(buf)@.len() ==> final(buf)@[i] == old(buf)@[i],
     { unimplemented!() }
 }
